@@ -176,6 +176,8 @@ def opaque_attr(ex, obj: VOpaque, name, fr):
     if obj.kind == "bitgen" and name == "state":
         from . import arrays
         return arrays.bitgen_get_state(ex)
+    if obj.kind == "iinfo" and name in obj.info:
+        return obj.info[name]
     raise Unsupported(f"attribute {name!r} of boundary object {obj.kind}")
 
 
@@ -514,6 +516,17 @@ def _groupby(ex, args, kwargs, fr):
                 continue
         out.append((k, [x]))
     return ex.st.alloc(HList([VTuple([k, ex.st.alloc(HList(g))]) for k, g in out]))
+
+
+@libfn("builtins.issubclass")
+def _issubclass(ex, args, kwargs, fr):
+    a, b = args
+    if isinstance(a, VDtype):        # numpy scalar types are modelled by their dtype
+        from . import arrays
+        return arrays.NP["numpy.issubdtype"](ex, [a, b], {}, fr)
+    if isinstance(a, VClass) and isinstance(b, VClass):
+        return VBool(b.ci in ex.world.mro(a.ci))
+    raise Unsupported(f"issubclass({a!r}, {b!r})")
 
 
 @libfn("collections.defaultdict")
